@@ -396,6 +396,14 @@ class Scheduler:
     self._event(cur, 'wake', obj)
     return ok
 
+  def join_all(self):
+    """Blocks the caller until every other non-service thread has finished
+    (a thread that never finishes shows up as a deadlock / horizon)."""
+    cur = self.current
+    self.block(lambda: all(t.state == DONE or t.service or t is cur
+                           or t.state == NEW for t in self.threads),
+               None, 'join-all', '')
+
   def sleep(self, secs):
     if secs <= 0:
       self.yield_('sleep0')
